@@ -7,8 +7,9 @@ namespace DymVerif.Spons
 
 /-! ### blacklist -/
 
+/-- the end of an x/incentives distribution epoch (ends of other epochs do nothing to sponsorship) -/
 def isEpochEnd : Op → Bool
-  | .epochEnd _ => true
+  | .epochEnd true => true
   | _ => false
 
 theorem revokeVote_blacklist (s : State) (a : Nat) (v : Vote) : (s.revokeVote a v).blacklist = s.blacklist := rfl
@@ -138,7 +139,10 @@ theorem step_blacklist {s : State} {op : Op} {a : Nat} (h : a ∈ s.blacklist) (
         rw [hooks_blacklist h2]; exact h
     · exact h
   | slash fin => exact h
-  | epochEnd d => cases he
+  | epochEnd d =>
+    cases d
+    · exact h
+    · cases he
   | fund g amt =>
     simp only [step]; split
     · rename_i s1 hf
